@@ -56,6 +56,17 @@ Theorem C07_ugrid_closed_every_history : forall vr h ds, vr_copy_template vr = t
 Proof. exact c07_ugrid_closed_repaired. Qed.
 Print Assumptions C07_ugrid_closed_every_history.
 
+(* the hypothesis c07_ds_wfb matters: a Cartesian-only grid (node_x/y/z, node_lon never materialised)
+   is encoded with node_coordinates naming variables it does not have, and cannot be read back
+   (while its Exodus encoding works) *)
+Theorem C07_ugrid_cartesian_only_refuted :
+  exists ds, c07_has ds c07_s_node_x = true /\ c07_has ds c07_s_node_lon = false /\
+    c07_closed (uo_ds (c07_encode_ugrid c07_faithful c07_base_template ds)) = false /\
+    c07_read_ugrid false (uo_ds (c07_encode_ugrid c07_faithful c07_base_template ds)) = None /\
+    (exists o, c07_encode_exodus c07_faithful ds = Some o).
+Proof. exact c07_ugrid_cartesian_only_refuted. Qed.
+Print Assumptions C07_ugrid_cartesian_only_refuted.
+
 (* ---- can be written to NetCDF --------------------------------------------------------- *)
 
 (* for every template a history can produce: writable iff the grid's own variables carry only
